@@ -183,6 +183,238 @@ fn observe(g: &AnyG) -> String {
     })
 }
 
+
+// ------------------------------------------------------------------------------------------- pure sub-protocols
+
+fn parse_text_tok(s: &str) -> Option<String> {
+    let r = s.strip_prefix("T:")?;
+    if r.is_empty() {
+        return Some(String::new());
+    }
+    r.split('.').map(|x| char::from_u32(x.parse().ok()?)).collect()
+}
+
+fn show_text_tok(s: &str) -> String {
+    format!("T:{}", s.chars().map(|c| (c as u32).to_string()).collect::<Vec<_>>().join("."))
+}
+
+/// the bytes a data token was built from (ground truth for the oracle half of a hex line)
+fn tok_bytes(s: &str) -> Option<Vec<u8>> {
+    if let Some(r) = s.strip_prefix('x') {
+        unhex(r)
+    } else if let Some(r) = s.strip_prefix("V:") {
+        unhex(r)
+    } else if let Some(r) = s.strip_prefix("B:") {
+        let (a, l) = r.split_once(':')?;
+        let arr = unhex(a)?;
+        let len: usize = l.parse().ok()?;
+        if arr.len() != 8 || len > 8 {
+            return None;
+        }
+        Some(arr[..len].to_vec())
+    } else {
+        None
+    }
+}
+
+fn guard<T>(f: impl FnOnce() -> T) -> Option<T> {
+    catch_unwind(AssertUnwindSafe(f)).ok()
+}
+
+fn show_opt_bytes(r: Option<Vec<u8>>) -> String {
+    match r {
+        None => "panic".into(),
+        Some(b) => format!("ok x{}", hexstr(&b)),
+    }
+}
+
+fn show_opt_byte(r: Option<u8>) -> String {
+    match r {
+        None => "panic".into(),
+        Some(b) => format!("ok {b}"),
+    }
+}
+
+fn exec_hex(ws: &[&str]) -> String {
+    use std::str::FromStr;
+    let bad = || "bad-op".to_string();
+    match ws {
+        ["view", h] => {
+            let (Some(x), Some(b)) = (parse_hex_tok(h), tok_bytes(h)) else { return bad() };
+            match guard(|| format!("ok {} {} x{} x{}", x.len(), x.print(), hexstr(x.bytes()), hexstr(&x.to_vec()))) {
+                Some(s) => {
+                    // the model prints bytes once; to_vec must equal bytes
+                    let parts: Vec<&str> = s.split(' ').collect();
+                    let merged = if parts[3] == parts[4] { format!("ok {} {} {}", parts[1], parts[2], parts[3]) } else { s.clone() };
+                    format!("{merged} ; {} x{}", b.len(), hexstr(&b))
+                }
+                None => format!("panic ; {} x{}", b.len(), hexstr(&b)),
+            }
+        }
+        ["index", h, i] => {
+            let (Some(x), Some(b), Ok(i)) = (parse_hex_tok(h), tok_bytes(h), i.parse::<usize>()) else { return bad() };
+            format!("{} ; {}", show_opt_byte(guard(|| x[i])), show_opt_byte(guard(|| b[i])))
+        }
+        ["byteat", h, i] => {
+            let (Some(x), Some(b), Ok(i)) = (parse_hex_tok(h), tok_bytes(h), i.parse::<usize>()) else { return bad() };
+            format!("{} ; {}", show_opt_byte(guard(|| x.byte_at(i))), show_opt_byte(guard(|| b[i])))
+        }
+        ["range", h, s, e] => {
+            let (Some(x), Some(b), Ok(s), Ok(e)) = (parse_hex_tok(h), tok_bytes(h), s.parse::<usize>(), e.parse::<usize>()) else { return bad() };
+            format!("{} ; {}", show_opt_bytes(guard(|| x[s..e].to_vec())), show_opt_bytes(guard(|| b[s..e].to_vec())))
+        }
+        ["rangeincl", h, s, e] => {
+            let (Some(x), Some(b), Ok(s), Ok(e)) = (parse_hex_tok(h), tok_bytes(h), s.parse::<usize>(), e.parse::<usize>()) else { return bad() };
+            format!("{} ; {}", show_opt_bytes(guard(|| x[s..=e].to_vec())), show_opt_bytes(guard(|| b[s..=e].to_vec())))
+        }
+        ["rangefrom", h, s] => {
+            let (Some(x), Some(b), Ok(s)) = (parse_hex_tok(h), tok_bytes(h), s.parse::<usize>()) else { return bad() };
+            format!("{} ; {}", show_opt_bytes(guard(|| x[s..].to_vec())), show_opt_bytes(guard(|| b[s..].to_vec())))
+        }
+        ["rangeto", h, e] => {
+            let (Some(x), Some(b), Ok(e)) = (parse_hex_tok(h), tok_bytes(h), e.parse::<usize>()) else { return bad() };
+            format!("{} ; {}", show_opt_bytes(guard(|| x[..e].to_vec())), show_opt_bytes(guard(|| b[..e].to_vec())))
+        }
+        ["rangetoincl", h, e] => {
+            let (Some(x), Some(b), Ok(e)) = (parse_hex_tok(h), tok_bytes(h), e.parse::<usize>()) else { return bad() };
+            format!("{} ; {}", show_opt_bytes(guard(|| x[..=e].to_vec())), show_opt_bytes(guard(|| b[..=e].to_vec())))
+        }
+        ["rangefull", h] => {
+            let (Some(x), Some(b)) = (parse_hex_tok(h), tok_bytes(h)) else { return bad() };
+            format!("{} ; {}", show_opt_bytes(guard(|| x[..].to_vec())), show_opt_bytes(Some(b)))
+        }
+        ["tail", h, k] => {
+            let (Some(x), Some(b), Ok(k)) = (parse_hex_tok(h), tok_bytes(h), k.parse::<usize>()) else { return bad() };
+            format!("{} ; {}", show_opt_bytes(guard(|| x.tail(k).bytes().to_vec())), show_opt_bytes(guard(|| b[k..].to_vec())))
+        }
+        ["eq", a, b] => {
+            let (Some(x), Some(y), Some(bx), Some(by)) = (parse_hex_tok(a), parse_hex_tok(b), tok_bytes(a), tok_bytes(b)) else { return bad() };
+            match guard(|| x == y) {
+                Some(r) => format!("ok {r} ; ok {}", bx == by),
+                None => format!("panic ; ok {}", bx == by),
+            }
+        }
+        ["roundtrip", h] => {
+            let (Some(x), Some(b)) = (parse_hex_tok(h), tok_bytes(h)) else { return bad() };
+            let r = guard(|| Hex::from_str(&x.print()).map(|y| y.bytes().to_vec()));
+            let left = match r {
+                None => "panic".to_string(),
+                Some(Err(_)) => "err".to_string(),
+                Some(Ok(y)) => format!("ok x{}", hexstr(&y)),
+            };
+            format!("{left} ; ok x{}", hexstr(&b))
+        }
+        ["fromstr", t] => {
+            let Some(t) = parse_text_tok(t) else { return bad() };
+            match guard(|| Hex::from_str(&t).map(|y| y.bytes().to_vec())) {
+                None => "panic".into(),
+                Some(Err(_)) => "err".into(),
+                Some(Ok(y)) => format!("ok x{}", hexstr(&y)),
+            }
+        }
+        ["tobits", h] => {
+            let (Some(x), Some(b)) = (parse_hex_tok(h), tok_bytes(h)) else { return bad() };
+            let i = match guard(|| x.to_i64()) {
+                None => "panic".to_string(),
+                Some(Err(_)) => "err".to_string(),
+                Some(Ok(v)) => (v as u64).to_string(),
+            };
+            let f = match guard(|| x.to_f64()) {
+                None => "panic".to_string(),
+                Some(Err(_)) => "err".to_string(),
+                Some(Ok(v)) => v.to_bits().to_string(),
+            };
+            let left = if i == "err" && f == "err" { "err err".to_string() } else { format!("ok {i} {f}") };
+            let right = if b.len() == 8 {
+                let mut a = [0u8; 8];
+                a.copy_from_slice(&b);
+                let n = u64::from_be_bytes(a);
+                format!("ok {n} {n}")
+            } else {
+                "err err".to_string()
+            };
+            format!("{left} ; {right}")
+        }
+        ["ofbits", n] => {
+            let Ok(n) = n.parse::<u64>() else { return bad() };
+            let r = guard(|| {
+                let hi = Hex::from(n as i64);
+                let hf = Hex::from(f64::from_bits(n));
+                let bi = hi.to_i64().map(|v| (v as u64).to_string()).unwrap_or_else(|_| "err".into());
+                let bf = hf.to_f64().map(|v| v.to_bits().to_string()).unwrap_or_else(|_| "err".into());
+                format!("ok x{} {bi} x{} {bf}", hexstr(hi.bytes()), hexstr(hf.bytes()))
+            });
+            let be = hexstr(&n.to_be_bytes());
+            format!("{} ; ok x{be} {n} x{be} {n}", r.unwrap_or_else(|| "panic".into()))
+        }
+        ["concat", a, b] => {
+            let (Some(x), Some(y), Some(bx), Some(by)) = (parse_hex_tok(a), parse_hex_tok(b), tok_bytes(a), tok_bytes(b)) else { return bad() };
+            let r = guard(|| {
+                let z = x.concat(&y);
+                format!(
+                    "ok x{} {} {}",
+                    hexstr(z.bytes()),
+                    if x.bytes() == bx.as_slice() { "same" } else { "changed" },
+                    if y.bytes() == by.as_slice() { "same" } else { "changed" }
+                )
+            });
+            let mut cat = bx.clone();
+            cat.extend_from_slice(&by);
+            format!("{} ; ok x{} same same", r.unwrap_or_else(|| "panic".into()), hexstr(&cat))
+        }
+        _ => bad(),
+    }
+}
+
+fn exec_label(ws: &[&str]) -> String {
+    use std::str::FromStr;
+    let bad = || "bad-op".to_string();
+    match ws {
+        ["parse", t] => {
+            let Some(t) = parse_text_tok(t) else { return bad() };
+            match guard(|| Label::from_str(&t).map(|l| format!("ok {} {}", show_label_tok(&l), show_text_tok(&l.to_string())))) {
+                None => "panic".into(),
+                Some(Err(_)) => "err".into(),
+                Some(Ok(s)) => s,
+            }
+        }
+        ["print", l] => {
+            let Some(l) = parse_label_tok(l) else { return bad() };
+            match guard(|| {
+                let t = l.to_string();
+                let back = match Label::from_str(&t) {
+                    Ok(l2) => show_label_tok(&l2),
+                    Err(_) => "err".to_string(),
+                };
+                format!("ok {} {back}", show_text_tok(&t))
+            }) {
+                None => "panic".into(),
+                Some(s) => s,
+            }
+        }
+        ["kid", t, l] => {
+            let (Some(t), Some(l)) = (parse_text_tok(t), parse_label_tok(l)) else { return bad() };
+            match guard(|| {
+                Label::from_str(&t).map(|p| {
+                    let mut g: Sodg<4> = Sodg::empty(4);
+                    g.add(0);
+                    g.add(1);
+                    g.bind(0, 1, p);
+                    match g.kid(0, l) {
+                        Some(k) => format!("ok {k}"),
+                        None => "ok none".to_string(),
+                    }
+                })
+            }) {
+                None => "panic".into(),
+                Some(Err(_)) => "err".into(),
+                Some(Ok(s)) => s,
+            }
+        }
+        _ => bad(),
+    }
+}
+
 struct World {
     hs: HashMap<usize, HS>,
 }
@@ -196,6 +428,8 @@ impl World {
                 self.hs.clear();
                 "ok".into()
             }
+            ["hex", rest @ ..] => exec_hex(rest),
+            ["label", rest @ ..] => exec_label(rest),
             ["new", h, n, c] => {
                 let (Some(h), Ok(n), Ok(c)) = (parse_handle(h), n.parse::<usize>(), c.parse::<usize>()) else {
                     return "bad-op".into();
@@ -275,10 +509,14 @@ fn main() {
             let stdout = std::io::stdout();
             let mut out = std::io::BufWriter::new(stdout.lock());
             let mut w = World { hs: HashMap::new() };
+            let flush = std::env::var("HARNESS_FLUSH").is_ok();
             for line in stdin.lock().lines() {
                 let line = line.unwrap();
                 let r = w.exec(&line);
                 writeln!(out, "{r}").unwrap();
+                if flush {
+                    out.flush().unwrap();
+                }
             }
             out.flush().unwrap();
         }
